@@ -879,6 +879,13 @@ def check_caches(run, modules, rule, functions=None, prog=None, zero_is_a_value=
                 run.fail(rule, '%s|%s|shape-index:%s' % (mi.name, name, norm(n_)[:30]), mi.relpath, n_.lineno,
                          "%s reads %s after validating that '%s' has exactly %d axis/axes: the index is out of range for every input the "
                          "validation lets through (IndexError instead of the consistency check)" % (name, norm(n_), nm_, r_))
+            from .rules._purity import never_filled_collections
+            for a_, nm_ in never_filled_collections(fn):
+                nstores += 1
+                run.subject(rule)
+                run.fail(rule, '%s|%s|never-filled:%s' % (mi.name, name, nm_), mi.relpath, a_.lineno,
+                         "%s creates '%s' empty and returns it without anything ever being added to it (no method call, subscript store or "
+                         "hand-over touches it): the caller always receives the empty collection" % (name, nm_))
             from .rules._purity import guards_contradicting_their_message
             for g_, why_ in guards_contradicting_their_message(fn):
                 nstores += 1
